@@ -1,5 +1,6 @@
 import ParamVerif.Util.Proto
 import ParamVerif.Dispatch.Spec
+import ParamVerif.Dispatch.Equal
 open Lean ParamVerif ParamVerif.Proto ParamVerif.Dispatch
 
 def parseWatcher (j : Json) : Except String Watcher := do
@@ -70,8 +71,50 @@ partial def parseItem (j : Json) : Except String Item := do
     return .stmt (← getStr j "k") (← getNat j "p") (← getInt j "old") (← getInt j "new") (← getBool j "b")
       (← getBool j "tr") (← (← getArr j "regs").toList.mapM (·.getNat?)) ch res
 
+partial def parsePV (j : Json) : Except String PV := do
+  let items (k : String) : Except String (List PV) := do (← getArr j k).toList.mapM parsePV
+  match ← getStr j "t" with
+  | "none" => return .none
+  | "num" => return .num (← getInt j "v")
+  | "nan" => return .nan
+  | "str" => return .str (← getStr j "v")
+  | "bytes" => return .bytes (← getStr j "v")
+  | "date" => return .date (← getInt j "v")
+  | "datetime" => return .datetime (← getInt j "v")
+  | "list" => return .list (← items "v")
+  | "tuple" => return .tuple (← items "v")
+  | "set" => return .set (← items "v")
+  | "dict" => do
+    let kvs ← (← getArr j "v").toList.mapM fun p => do
+      let q ← p.getArr?
+      return (← q[0]!.getStr?, ← parsePV q[1]!)
+    return .dict kvs
+  | "other" => return .other (← getNat j "id")
+  | t => throw s!"unknown value tag {t}"
+
+/-- the changes-only test on arbitrary values: `Comparator.is_equal` vs the model, Python `==` vs the spec -/
+def handleEqual (req case : Json) : Except String Json := do
+  let a ← parsePV (← case.getObjVal? "a")
+  let b ← parsePV (← case.getObjVal? "b")
+  let impl ← req.getObjVal? "impl"
+  let iEq ← getBool impl "is_equal"
+  let iPy ← getBool impl "py_eq"
+  let specOn (isEq pyE : Bool) : Option String :=
+    if isEq && !pyE then some "Comparator.is_equal hides a genuine change (values differ in Python)"
+    else if plain a && plain b && pyE && !isEq then
+      some "equal numbers/strings/None/dates/containers of these are reported as changed"
+    else none
+  let optJ : Option String → Json := fun | some s => Json.str s | none => Json.null
+  return Json.mkObj [
+    ("model", Json.mkObj [("is_equal", Json.bool (isEqual a b)), ("py_eq", Json.bool (pyEq a b))]),
+    ("applicable", Json.bool true), ("spec_impl", optJ (specOn iEq iPy)),
+    ("spec_model", optJ (specOn (isEqual a b) (pyEq a b))),
+    ("branches", Json.arr #[Json.str (if plain a && plain b then "equal:plain" else "equal:other")]),
+    ("checked_steps", toJson (1 : Nat))]
+
 def handle (req : Json) : Except String Json := do
   let case ← req.getObjVal? "case"
+  if (getStr case "kind").toOption == some "equal" then return ← handleEqual req case
   let bounds ← (← getArr case "bounds").toList.mapM fun b => do
     let q ← b.getArr?
     return ((q[0]!.getInt?).toOption, (q[1]!.getInt?).toOption)
